@@ -26,7 +26,7 @@ func (c19) ID() string { return "C19" }
 func (c19) Meta(tier string) engine.Meta {
 	return engine.Meta{
 		Level: "model_checking",
-		Rule: "all accepted single-line programs of depth <= 2 with one nested operand (thorough: full depth 2) over the debug alphabet — ASCII and non-ASCII identifiers and strings (incl. strings that render on several lines), numbers, members, subscripts (also failing ones), method calls, infix / prefix operators, conditionals and short-circuit operators with unevaluated branches — in raw and host-map environments, plus 18 hand-built three-level programs. Oracle: Debug returns the value / failure of normal evaluation (VM and closure back ends, and the reference); the record, read through the build-tag hook before rendering, equals the reference evaluator's list of (value, column) for exactly the evaluated variable / call / member / subscript terms in completion order, each at its own term's column (identifier start, '(' of a call, '.' of a member, '[' of a subscript, the operator token, '?'); rendering does not fail, keeps the source as first line, and shows every recorded value at its column on some later line. non-trivial = programs with at least two recorded terms",
+		Rule: "all accepted single-line programs of depth <= 2 with one nested operand (thorough: full depth 2) over the debug alphabet — ASCII and non-ASCII identifiers and strings (incl. strings that render on several lines), numbers, members, subscripts (also failing ones), method calls, infix / prefix operators, conditionals and short-circuit operators with unevaluated branches — in raw and host-map environments, plus 23 hand-built three-level programs (incl. objects whose rendering spans several lines next to wide values). Oracle: Debug returns the value / failure of normal evaluation (VM and closure back ends, and the reference); the record, read through the build-tag hook before rendering, equals the reference evaluator's list of (value, column) for exactly the evaluated variable / call / member / subscript terms in completion order, each at its own term's column (identifier start, '(' of a call, '.' of a member, '[' of a subscript, the operator token, '?'); rendering does not fail, keeps the source as first line, and shows every recorded value at its column on some later line. non-trivial = programs with at least two recorded terms",
 		Bound: "depth 2 (one nested operand); 7 variables",
 		Assumptions: []string{"no function that evaluates one operand twice is used (the record then shifts columns by design)"},
 	}
@@ -42,6 +42,8 @@ func debugEnv(rep string) real.EnvSpec {
 		{Name: "m", V: ref.MapV(gen.Str, gen.Num, ref.StrV("k"), ref.NumV(1))},
 		{Name: "o", V: oab(1, "x")},
 		{Name: "b", V: ref.BoolV(true)},
+		{Name: "wide", V: ref.NumV(1000000)},
+		{Name: "ow", V: ref.ObjV([]string{"w\nw", "z"}, ref.NumV(1), ref.StrV("q"))},
 	}}
 }
 
@@ -76,6 +78,7 @@ func debugGrammar() *gen.Grammar {
 	bin(g, "+", S, S, S)
 	fn(g, "string", S, N)
 	g.Prod("mem-b", S, []*gen.Ty{tyOAB}, func(x []*gen.Term) *gen.Term { return gen.MemT(x[0], "b") })
+	g.Prod("map-var-key", N, []*gen.Ty{S, N}, func(x []*gen.Term) *gen.Term { return gen.SubT(gen.MapT(x[0], x[1]), x[0]) })
 	g.Prod("list2", tyLNum, []*gen.Ty{N, N}, func(x []*gen.Term) *gen.Term { return gen.ListT(x[0], x[1]) })
 	g.Prod("obj", tyOAB, []*gen.Ty{N, S}, func(x []*gen.Term) *gen.Term { return gen.ObjT([]string{"a", "b"}, x[0], x[1]) })
 	return g
@@ -121,6 +124,11 @@ func (c19) Generate(tier string, yield func(*engine.Case) bool) {
 		gen.Infix("+", v("nl"), gen.CallT("string", gen.SubT(v("l"), n(0)))),
 		gen.Infix("<", gen.Method("len", v("nl")), gen.Method("len", v("名"))),
 		v("名"), gen.Infix("+", v("名"), gen.StrT("日本語")),
+		gen.Infix("+", v("wide"), gen.CallT("len", gen.ListT(v("ow")))),
+		gen.Infix("+", gen.Infix("*", v("wide"), v("wide")), gen.CallT("len", gen.ListT(v("ow"), v("ow")))),
+		gen.Infix("==", gen.ListT(v("ow")), gen.ListT(v("ow"))),
+		gen.Infix("+", gen.CallT("len", gen.CallT("string", v("ow"))), v("wide")),
+		gen.Infix("+", gen.Infix("+", v("wide"), v("n")), gen.CallT("len", gen.ListT(v("ow"), gen.CallT("get", gen.ListT(v("ow")), v("n"), v("ow"))))),
 	} {
 		if ok && !yield(progCase("debug-deep", t, env, "raw")) {
 			ok = false
